@@ -49,7 +49,7 @@ def replyOf {α : Type} (j : Json) (f : Json → α) (okStatus : Nat := 0) (body
   | "status" =>
     let n := (jnat j "status").toOption.getD 0
     if n == okStatus && okStatus != 0 then (if bodyless then .ok (f j) else .malformed) else .status n
-  | "transport" => .transport
+  | "transport" | "hang" => .transport       -- no answer at all (connection died, or the caller's timeout ran out)
   | _ => .malformed
 
 def sessOf (j : Json) : Option Sess :=
@@ -152,6 +152,7 @@ def checkCase (j : Json) : Except String Verdict := do
   -- history bookkeeping for the C04 monitor: per host, absolute lifetime of the chain's login
   let mut clock : Int := 0
   let mut chainLifetime : List (String × Int) := []
+  let mut vdHist : List (String × Int) := []       -- host ↦ (time of the login or of the last passed revalidation) + V
   let mut episode : List (String × Int) := []      -- host ↦ absolute time of the first outage-served check of the current episode
   let mut pageStructure : List (Nat × String) := []      -- status ↦ structure (the template branches on the code only)
   for st in steps do
@@ -395,6 +396,27 @@ def checkCase (j : Json) : Except String Verdict := do
             | some (_, lt) => if strD presented "kind" == "jar" && clock + ns.lifetime > lt then v := v.mons ["C04", "C01"] "lifetime_moved_later" idx
             | none => pure ()
         | none => pure ()
+      -- C04 (history level, from the *calls* alone — the ghost `validityAfter` of C04_served_within_validity run on the trace):
+      -- along one browser's chain, a request let through without asking the authenticator anything comes no later than V
+      -- after the login or the last revalidation that let the session through — whatever deadlines the cookie carries
+      let hk := handlerOf (strD ora "escapedPath")
+      let callsNow := strs out "calls"
+      if hk == "OAuthCallback" then
+        if iwrites.toList.any (fun w => (sessOf (getJ w "save")).isSome) then vdHist := (host, clock + ttlV) :: vdHist.filter (·.1 != host)
+        else vdHist := vdHist.filter (·.1 != host)
+      else if linear && strD presented "kind" == "jar" && (hk == "Proxy" || hk == "AuthenticateOnly") then
+        if !whitel then
+          let passed := (hk == "Proxy" && reached) || (hk == "AuthenticateOnly" && status == 202)
+          if passed then
+            if callsNow.contains "validate" then vdHist := (host, clock + ttlV) :: vdHist.filter (·.1 != host)
+            else if !(callsNow.contains "refresh") then
+              match vdHist.find? (·.1 == host) with
+              | some (_, vd) =>
+                if clock > vd + 2 then
+                  v := v.mons ["C04", "C01"] "served_unchecked_beyond_validity" idx s!"last check or login + V = {vd}, served without any check at {clock}"
+              | none => pure ()
+      else if hk != "Proxy" && hk != "AuthenticateOnly" then pure ()
+      else vdHist := vdHist.filter (·.1 != host)
       -- C01: a refusal clears the cookie
       let h := handlerOf (strD ora "escapedPath")
       if (h == "Proxy" || h == "AuthenticateOnly") && !whitel && !reached && status != 301 && status != 202 then
